@@ -42,6 +42,13 @@ m = {
  'not_applicable': [{'property_id': 'C12', 'reason': 'quantifies over programs with rustc\'s accept/reject verdict as oracle; no function contract or data-structure invariant can express "this program does not compile", and neither Kani nor Verus takes an ill-typed program as input (DESIGN.md §11)'}],
  'notes': 'exit 0 = all obligations discharged; exit 1 + VIOLATION = an expected obligation refuted (counterexample replayed natively via cargo kani playback where CBMC gives one); exit 2 + UNDECIDED = lost anchor / tool limit, never an alarm. Fixed defects are recorded in known_findings.txt.',
 }
+STANDIN_NOTE = {
+    **{p: 'BOUNDED STAND-IN (labelled bounded, never counted as proved): native panic injection at every call index / every panicking element for N <= 4 on the unwinding paths no verifier here can execute (standin/src/main.rs); ' for p in ('C04', 'C05', 'C09', 'C16')},
+    'C15': 'BOUNDED STAND-IN (labelled bounded, never counted as proved): the boxed constructors and O(1) conversions build / convert a 4 MiB array on a 256 KiB-stack thread; native panic injection on unwinding paths for N <= 4 (standin/src/main.rs); ',
+    'C14': 'BOUNDED STAND-IN (labelled bounded, never counted as proved): the chunked strategy (N > 1024, beyond CBMC) executed natively on the real code for N in {1024, 1025, 2047, 2048, 2049, 3000, 4096}, all / boundary precisions, without and with feature faster-hex (standin/src/main.rs); ',
+    'C20': 'BOUNDED STAND-IN (labelled bounded, never counted as proved): a panic inside element expression k of the list forms (an unwinding path) and box_arr![x; N] with a Clone-not-Copy element and a panicking clone, executed natively with a drop ledger (standin/src/main.rs); ',
+    **{p: 'BOUNDED STAND-IN (labelled bounded, never counted as proved): the ADDRESS of zero-extent views (zero-sized elements, N = 0) compared natively - CBMC does not model the address of a zero-sized place, so engine K guards those assertions (standin/src/main.rs); ' for p in ('C02', 'C10', 'C11')},
+}
 VERUS = json.load(open(os.path.join(HERE, 'verus', 'served.json'))) if os.path.exists(os.path.join(HERE, 'verus', 'served.json')) else {}
 for p in props:
     text, extra = C[p]
@@ -51,7 +58,7 @@ for p in props:
         'evidence_file': '/verif/evidence/%s.json' % p, 'replay_cmd_template': './check %s --replay {path}' % p,
         'engine': 'V+K' if v else 'K',
         'level_claimed': {'category': 'proof', 'text': text + ((' ALL-N part (Verus): ' + v) if v else ''), 'design_ref': 'DESIGN.md §5 ' + p},
-        'level_note': NOTE_K + extra + ('BOUNDED STAND-IN (labelled bounded, never counted as proved): native panic injection at every call index / every panicking element for N <= 4 on the unwinding paths no verifier here can execute (standin/src/main.rs); ' if p in ('C04', 'C05', 'C09', 'C16') else ('BOUNDED STAND-IN (labelled bounded, never counted as proved): the boxed constructors and O(1) conversions build / convert a 4 MiB array on a 256 KiB-stack thread (standin/src/main.rs); ' if p == 'C15' else '')) + ('engine V: extractor rewrite rules and the external_body prelude are trusted (listed in the evidence).' if v else ''),
+        'level_note': NOTE_K + extra + STANDIN_NOTE.get(p, '') + ('engine V: extractor rewrite rules and the external_body prelude are trusted (listed in the evidence).' if v else ''),
         'technique': TECH_V if v else TECH_K})
     if v:
         m['engines'][1]['serves_properties'].append(p)
